@@ -492,6 +492,10 @@ func (s *sim) apply(a Action) {
 		c.host = hostOf(c.k, c.target.n)
 		c.url = fmt.Sprintf("https://%s%s?call=%d", c.host, simpleshell.IOPath, c.k)
 		c.out = newOutPipe()
+		if a.HoldOutput {
+			c.hold = make(chan struct{})
+			s.probes["held_starts"]++
+		}
 		switch c.class {
 		case clsUnpinned:
 			c.allowed = c.target.valid
@@ -556,6 +560,28 @@ func (s *sim) apply(a Action) {
 			c.owed = append(c.owed, tok)
 		}
 		c.out.write([]byte(tok))
+	case "release":
+		c := s.calls[a.Call]
+		if c == nil || c.ended || c.hold == nil || c.outReleased {
+			s.obs("noop")
+			return
+		}
+		if c.sawParked {
+			s.probes["released_parked"]++
+			after := false
+			for _, o := range s.order {
+				if o == c {
+					after = true
+					continue
+				}
+				if after && (o.class == clsPinned || o.class == clsLenient) {
+					// another pinned call was set up between this call's set-up and its dial
+					s.probes["setup_interleaved"]++
+					break
+				}
+			}
+		}
+		s.unpark(c)
 	case "end":
 		c := s.calls[a.Call]
 		if c == nil || c.ended {
@@ -596,10 +622,24 @@ func (s *sim) apply(a Action) {
 	}
 }
 
+// unpark lets a call parked in Shell.Output go on.
+func (s *sim) unpark(c *call) {
+	if c.hold != nil && !c.outReleased {
+		c.outReleased = true
+		close(c.hold)
+	}
+}
+
 // endCall finishes a call's shell: whatever it owed is judged on the
 // quiescent state reached before, then its output is closed and its shell
 // released.
 func (s *sim) endCall(c *call) {
+	if c.hold != nil && !c.outReleased {
+		// still parked before connecting: it has not had its chance yet
+		s.unpark(c)
+		synctest.Wait()
+		s.observe()
+	}
 	s.judge(c)
 	c.ended = true
 	c.out.closeWrite()
@@ -698,8 +738,12 @@ func (s *sim) observe() {
 	}
 	for _, c := range s.order {
 		c.mu.Lock()
-		connected, returned, err := c.connected, c.returned, c.err
+		connected, returned, err, parked := c.connected, c.returned, c.err, c.parked
 		c.mu.Unlock()
+		if parked && !c.sawParked {
+			c.sawParked = true
+			s.obs("call %d parked in Output", c.k)
+		}
 		if connected && !c.sawConnected {
 			c.sawConnected = true
 			s.obs("call %d streaming", c.k)
@@ -796,6 +840,7 @@ func (s *sim) finish() {
 	}
 	// teardown: nothing of this bubble may outlive it
 	for _, c := range s.order {
+		s.unpark(c)
 		if !c.ended {
 			c.ended = true
 			close(c.release)
